@@ -1,11 +1,11 @@
 package e5
 
 import (
-	"sort"
 	"fmt"
 	"io"
 	"net"
 	"net/http"
+	"sort"
 	"strings"
 	"sync"
 )
